@@ -535,6 +535,7 @@ PROPS["C17"] = {
     "streams": [{"gen": "C17", "quick": 3000, "thorough": 150000}, {"gen": "C17vdr", "quick": 300, "thorough": 20000}],
     "compare": _cmp_c17,
     "property_check": _c17_property,
+    "property_on_ood": True,
     "label": lambda r: ("vdr/" + r["model"].get("class", "?") + "/keys=" + str(len(set(_frag(e["id"]) for n in ("authentication", "assertionMethod", "capabilityDelegation", "capabilityInvocation", "keyAgreement") for e in r["case"]["doc"][n])))) if r["kind"] == "vdr" else _lab(r, r["model"].get("class")),
     "nontrivial": lambda r: r["model"].get("class") == "ok",
     "shape": lambda r: r["case"].get("did") or r["case"].get("req") or r["case"].get("spec") or r["case"].get("doc"),
